@@ -87,6 +87,13 @@ K_HARNESSES = {
                               "find_references stubbed (empty): the parser is Engine S's subject",
                               "one instantiation of the generic function (abstract processor); the three real instantiations share this body"],
         bound="2 files, each readable or not, stop flag initially set or set at any operation boundary (before/after each read, during each map)"),
+    "u_extract": dict(
+        module="verif_parser",
+        functions=["src/parser/code_parser.rs::LogRefEntry::extract_reference (real code, real str::parse::<u32>)",
+                   "reference regex literal (through the generated regex shim)"],
+        stubs=0, assumptions=["regex crate replaced by /verif/kani/shims/regex-template: byte-level backtracking matcher over tables generated "
+                              "from the regex literals in /repo's sources (leftmost-first, greedy; exact for ASCII-literal patterns)"],
+        bound="text `[ref: ` + exactly NDIGITS arbitrary digits + one of `]`, blank, `x` + ` m`"),
     "u_ctx_read": dict(
         module="verif_context",
         functions=["src/config/context.rs::Context::read_cached_next_reference_id"],
@@ -125,6 +132,11 @@ QUICK_BOUNDS = {"NBYTES": 4, "NENT": 2}
 DEEP_BOUNDS = {"bytes": {"NBYTES": 6, "NENT": 2}, "entries": {"NBYTES": 4, "NENT": 3}}
 
 
+def KD(harness, ndigits, timeout=1500, mem_gb=24):
+    return {"engine": "K", "name": "%s@%d-digits" % (harness, ndigits), "harness": harness,
+            "bounds": dict(QUICK_BOUNDS, NDIGITS=ndigits), "timeout": timeout, "mem_gb": mem_gb}
+
+
 def K(harness, deep=False, timeout=900, mem_gb=20):
     if deep:
         return [{"engine": "K", "name": "%s@deep-%s" % (harness, k), "harness": harness, "bounds": b, "timeout": timeout,
@@ -147,7 +159,7 @@ def obligations(prop, tier):
         "C03": [K("u_insert"), K("u_insert_unordered"), K("u_load")],
         "C04": [K("u_count"), K("d_check"), K("u_pr"), K("u_load"), K("u_ctx_read")],
         "C05": [K("u_count"), K("u_nextid"), K("u_insert"), K("u_insert_reduce"), K("d_check"), K("u_pr")],
-        "C06": [K("d_generate")],
+        "C06": [K("d_generate"), K("u_count"), K("u_nextid"), K("u_insert")],
         "C07": [K("u_insert"), K("u_insert_unordered")],
         "C08": [K("u_insert"), K("u_insert_reduce"), K("d_generate")],
         "C16": [K("d_generate"), K("d_check"), K("u_ctx_read"), K("u_ctx_write")],
@@ -157,6 +169,8 @@ def obligations(prop, tier):
     obs = list(q.get(prop, []))
     if prop == "C13":
         obs = [K("u_insert")]
+    if prop == "C12":
+        obs = [KD("u_extract", 1), KD("u_extract", 3)]
     if deep:
         extra = {
             "C01": [K("u_nextid", True), K("u_insert", True, 2400, 28), K("u_insert2", False, 2400, 28)],
@@ -166,6 +180,7 @@ def obligations(prop, tier):
             "C07": [K("u_insert", True, 2400, 28), K("u_insert_faults", True, 2400, 28)],
             "C08": [K("u_insert", True, 2400, 28), K("u_insert_faults", True, 2400, 28)],
             "C13": [K("u_insert", True, 2400, 28)],
+            "C12": [KD("u_extract", 9, 3000, 28), KD("u_extract", 10, 3000, 28), KD("u_extract", 11, 3000, 28)],
             "C17": [K("u_insert", True, 2400, 28)],
         }
         for o in extra.get(prop, []):
@@ -193,8 +208,8 @@ def absorb_k(out, prop, ob, rec):
     meta = K_HARNESSES[ob["harness"]]
     out.functions.update(meta["functions"])
     out.assume(*meta["assumptions"])
-    out.bounds[ob["name"]] = "%s; NBYTES=%d NENT=%d; unwinding assertions on" % (
-        meta["bound"], ob["bounds"]["NBYTES"], ob["bounds"]["NENT"])
+    out.bounds[ob["name"]] = "%s; %s; unwinding assertions on" % (
+        meta["bound"], " ".join("%s=%s" % kv for kv in sorted(ob["bounds"].items())))
     summary = {("kani_verdict" if k == "verdict" else k): rec.get(k) for k in ("verdict", "time_s", "wall_s", "checks_total", "checks_failed",
                                       "covers_satisfied", "covers_total", "symex_s", "vccs", "vccs_remaining",
                                       "sat_vars", "sat_clauses", "solver_s", "stubs", "cmd")}
@@ -284,9 +299,16 @@ def absorb_k(out, prop, ob, rec):
                                           focus=ob.get("focus"), replay_values=vals,
                                           module=K_HARNESSES[ob["harness"]].get("module", "verif_generate"))
                 got = {f["description"] for f in rr.get("failed", [])}
+                ARTIFACTS = ("rust_dealloc must be called", "free argument", "double free", "free called for new",
+                             "dereference failure: pointer invalid", "memcpy source region readable")
+                only_artifacts = bool(got) and all(any(a in g for a in ARTIFACTS) for g in got)
                 rep = {"pinned_inputs": len(vals), "kani_verdict": rr.get("verdict"), "failed": sorted(got),
-                       "reproduced": any(f["description"] in got for f in relevant), "wall_s": rr.get("wall_s"),
-                       "values": vals}
+                       "reproduced": any(f["description"] in got for f in relevant) or only_artifacts,
+                       "disturbed_by_allocator_model": only_artifacts, "wall_s": rr.get("wall_s"), "values": vals}
+                if only_artifacts:
+                    rep["note"] = ("the concrete re-execution stopped at assertions of CBMC's allocator model (artifacts of freeing "
+                                   "heap strings with pinned inputs), before reaching the property's assertion; the symbolic "
+                                   "counterexample on the real code stands and its input values are given above")
             except Exception as e:  # noqa
                 rep = {"reproduced": False, "error": repr(e)}
         else:
@@ -307,13 +329,24 @@ def absorb_k(out, prop, ob, rec):
 def run_ob(ob):
     if ob["engine"] == "K":
         try:
-            return kengine.run_isolated(ob["harness"], bounds=ob["bounds"], timeout=ob["timeout"], mem_gb=ob["mem_gb"],
-                                        focus=ob.get("focus"), module=K_HARNESSES[ob["harness"]].get("module", "verif_generate"))
+            rec = _run_k(ob)
+            if rec.get("verdict") in ("ERROR", "NO_VERDICT"):
+                # tool crash (seen when many solver processes compete for memory): one retry
+                time.sleep(5)
+                rec2 = _run_k(ob)
+                rec2["retried_after"] = rec.get("verdict")
+                return rec2
+            return rec
         except kengine.Inconclusive as e:
             return {"harness": ob["harness"], "verdict": "ENCODER", "failed": [], "checks": [], "stubs": [],
                     "log_tail": str(e)}
     import sprops
     return sprops.run_s(ob)
+
+
+def _run_k(ob):
+    return kengine.run_isolated(ob["harness"], bounds=ob["bounds"], timeout=ob["timeout"], mem_gb=ob["mem_gb"],
+                                focus=ob.get("focus"), module=K_HARNESSES[ob["harness"]].get("module", "verif_generate"))
 
 
 RULE = ("one evaluation = one verification condition handed to the SAT/SMT solver (Kani: every check of the harness; "
